@@ -574,6 +574,9 @@ def ec_cases(cn, sub):
             yield dict(base, entry="construct", d=d, x=Q[0])          # only one coordinate given
         for d in badd:
             yield dict(base, entry="construct", d=d, x=c.Gx, y=c.Gy)
+        yield dict(base, entry="construct", seed=bytes(32))
+        yield dict(base, entry="construct", seed=bytes(32), x=c.Gx, y=c.Gy)
+        yield dict(base, entry="construct", seed=bytes(32), d=1)
         # key files
         for fmt in ("rfc5915", "pkcs8"):
             for d in good + [0, nn, nn + 1, top]:
